@@ -114,4 +114,34 @@ ShapeCounts ==
   /\ Cardinality(Shapes \ Accepted) > 100          \* the candidates include ill-typed ones that InsOK filters out
 
 Emit == Gen => PrintT(<<"REPLAY", ToJson(shape)>>)
+
+(***************************************************************************)
+(* C14: every constant position of every production, one step outside its  *)
+(* range (and far outside).  Each variant must be ill-formed.              *)
+(***************************************************************************)
+OutOfRange(o, w, signed) ==
+  IF o.k # "imm" THEN {}
+  ELSE LET hi == IF w = 8 THEN 255 ELSE 65535
+           lo == IF signed THEN (IF w = 8 THEN -128 ELSE -32768) ELSE 0
+       IN {Imm(hi + 1), Imm(lo - 1)} \cup (IF w = 8 THEN {Imm(300), Imm(65535), Imm(-200)} ELSE {Imm(70000)})
+
+BadVariants(s) ==
+  CASE s.cls \in {"binarith", "mov"} /\ s.src.k = "imm" -> {[s EXCEPT !.src = x] : x \in OutOfRange(s.src, s.w, TRUE)}
+    [] s.cls = "logic" /\ s.src.k = "imm" -> {[s EXCEPT !.src = x] : x \in OutOfRange(s.src, s.w, FALSE)}
+    [] s.cls = "shift" /\ s.cnt.k = "imm" -> {[s EXCEPT !.cnt = [k |-> "imm", v |-> 256]], [s EXCEPT !.cnt = [k |-> "imm", v |-> 65535]]}
+    [] s.cls = "int" -> {[s EXCEPT !.n = 256], [s EXCEPT !.n = 5]}
+    [] OTHER -> {}
+\* displacement / direct address out of range in any memory operand
+BadMem(o) == IF o.k # "mem" THEN {} ELSE IF o.base = "" /\ o.index = "" THEN {[o EXCEPT !.disp = 65536], [o EXCEPT !.disp = -1]}
+                                        ELSE {[o EXCEPT !.disp = 65536], [o EXCEPT !.disp = -32769]}
+BadMemVariants(s) ==
+  (IF "dst" \in DOMAIN s THEN {[s EXCEPT !.dst = x] : x \in BadMem(s.dst)} ELSE {})
+  \cup (IF "src" \in DOMAIN s THEN {[s EXCEPT !.src = x] : x \in BadMem(s.src)} ELSE {})
+
+BadShapes == UNION {BadVariants(s) : s \in Accepted}
+             \cup UNION {BadMemVariants(s) : s \in {x \in Accepted : x.cls \in {"mov", "unarith", "lea", "push"}}}
+InitBad == shape \in BadShapes
+SpecBad == InitBad /\ [][Next]_vars
+C14Refused == ~InsOK(shape, Env)
+BadCounts == Cardinality(BadShapes) > 1000
 =============================================================================
